@@ -619,4 +619,486 @@ Proof.
   eapply G; eauto.
 Qed.
 
+(* ---------- the monitor of the system refines the sequential monitor ---------- *)
+
+Notation gevent := (gevent cfg sv).
+Notation vcfg := (vcfg cfg).
+Notation trace := (@trace cfg sv stack verify p).
+Notation final_st := (@final_st cfg sv stack verify p).
+Notation final_cur := (@final_cur cfg sv stack verify p).
+
+(* what the monitor has done so far, and what it has received, read off the ghost history *)
+Definition mon_hist (log : list gevent) : list mon_act :=
+  flat_map (fun g => match g with GVerify c b => [AVerify c b] | GAct a _ => [a] | _ => [] end) log.
+Definition recvs (log : list gevent) : list (mon_in sv) :=
+  flat_map (fun g => match g with GRecv i => [i] | _ => [] end) log.
+
+Lemma mon_hist_app : forall a b, mon_hist (a ++ b) = mon_hist a ++ mon_hist b.
+Proof. intros. apply flat_map_app. Qed.
+Lemma recvs_app : forall a b, recvs (a ++ b) = recvs a ++ recvs b.
+Proof. intros. apply flat_map_app. Qed.
+
+Lemma recvs_cons_recv : forall i l, recvs (GRecv i :: l) = i :: recvs l.
+Proof. reflexivity. Qed.
+Lemma mon_hist_cons_recv : forall i l, mon_hist (GRecv i :: l) = mon_hist l.
+Proof. reflexivity. Qed.
+
+Lemma splitv_spec : forall acts : list mon_act,
+  mon_hist (fst (splitv acts)) ++ snd (splitv acts) = acts /\
+  recvs (fst (splitv acts)) = [] /\
+  (forall cur : vcfg, cur_after cur (mon_hist (fst (splitv acts))) = cur).
+Proof.
+  induction acts as [|a r IH]; [repeat split; reflexivity|].
+  destruct a; try (repeat split; reflexivity).
+  cbn [System.split_verifies]. destruct (splitv r) as [g r'] eqn:E. cbn [fst snd] in *.
+  destruct IH as [A [B C]]. repeat split.
+  - cbn. f_equal. exact A.
+  - exact B.
+  - intros cur. cbn. apply C.
+Qed.
+
+Lemma mon_take_log : forall (s : sys) st i,
+  s_log (mon_take stack verify p s st i) =
+  s_log s ++ GRecv i :: fst (splitv (snd (mon_recv stack verify p (s_value s) st i))).
+Proof.
+  intros. unfold mon_take. destruct (mon_recv stack verify p (s_value s) st i) as [st' acts].
+  cbn [fst snd]. destruct (splitv acts) as [g pend]. reflexivity.
+Qed.
+
+Lemma cb_enter_hist : forall l : list (cb_out cfg), mon_hist (cb_enter l) = [] /\ recvs (cb_enter l) = [].
+Proof. intros [|[]]; split; reflexivity. Qed.
+
+Definition only_verifies (l : list mon_act) : Prop := forall a, In a l -> exists c b, a = AVerify c b.
+
+Lemma only_verifies_nil : forall es : list gevent, mon_hist es = [] -> only_verifies (mon_hist es).
+Proof. intros es H a Ha. rewrite H in Ha. destruct Ha. Qed.
+Lemma only_verifies_app : forall a b, only_verifies a -> only_verifies b -> only_verifies (a ++ b).
+Proof. intros a b Ha Hb x Hx. apply in_app_or in Hx. destruct Hx; auto. Qed.
+Lemma only_verifies_no_store : forall l, only_verifies l -> stores_of l = [].
+Proof.
+  induction l as [|a r IH]; intros H; [reflexivity|].
+  destruct (H a (or_introl eq_refl)) as [c [b ->]]. cbn. apply IH. intros x Hx. apply H. right. exact Hx.
+Qed.
+Lemma only_verifies_no_reply : forall l j rid r, only_verifies l -> nth_error l j <> Some (AReply rid r).
+Proof.
+  intros l j rid r H Hx. apply nth_error_In in Hx. destruct (H _ Hx) as [c [b E]]. discriminate.
+Qed.
+
+Lemma verifs_hist : forall vl : list (cfg * bool),
+  only_verifies (mon_hist (map (fun cb => GVerify (fst cb) (snd cb)) vl)) /\
+  recvs (map (fun cb => GVerify (fst cb) (snd cb)) vl) = [].
+Proof.
+  induction vl as [|x r [A B]]; [split; [intros a []|reflexivity]|]. cbn. split; [|exact B].
+  intros a [<-|Ha]; [eauto|apply A; exact Ha].
+Qed.
+
+Lemma enter_nostore : forall (x : gevent) (l : list (cb_out cfg)), mon_hist [x] = [] -> recvs [x] = [] ->
+  only_verifies (mon_hist (x :: cb_enter l)) /\ recvs (x :: cb_enter l) = [].
+Proof.
+  intros x l H1 H2. change (x :: cb_enter l) with ([x] ++ cb_enter l).
+  rewrite mon_hist_app, recvs_app, H1, H2. destruct (cb_enter_hist l) as [A B]. rewrite A, B.
+  split; [intros a []|reflexivity].
+Qed.
+
+Ltac log_ext := first [ cbn; rewrite <- ?app_assoc; reflexivity | cbn; symmetry; apply app_nil_r ].
+
+(* steps of other goroutines add nothing to the monitor's history *)
+Lemma step_log_nonmon : forall s l s', step s l = Some s' -> s_mon s <> MNone ->
+  match l with
+  | LMonRecv _ | LMonAct _ => True
+  | _ => exists es, s_log s' = s_log s ++ es /\ mon_hist es = [] /\ recvs es = []
+  end.
+Proof.
+  intros s l s' H Hm. destruct l; cbn [System.step] in H; try exact I.
+  - unfold System.api_start in H. destruct (lookup tid (s_thr s)); [discriminate|].
+    destruct op; unfold start_enqueue in H; inv_step H; try contradiction;
+      (eexists; split; [log_ext|split; reflexivity]).
+  - unfold System.api_act in H. inv_step H;
+      (eexists; split; [log_ext|split; reflexivity]).
+  - unfold System.cb_take_step in H. inv_step H; (eexists; split; [log_ext|]); cbn;
+      try (split; reflexivity); apply cb_enter_hist.
+  - unfold cb_return_step in H. inv_step H. eexists; split; [log_ext|]. cbn. apply cb_enter_hist.
+  - unfold cb_ack_step in H. inv_step H. eexists; split; [log_ext|]. cbn. apply cb_enter_hist.
+  - destruct (s_main s); [discriminate|]. inversion H. eexists. split; [reflexivity|split; reflexivity].
+  - unfold cancel_call in H. inv_step H;
+      (eexists; split; [log_ext|split; reflexivity]).
+Qed.
+
+Definition inv_ref (cur0 : vcfg) (st0 : mon_state sv) (log0 : list gevent) (s : sys) : Prop :=
+  exists rest, s_log s = log0 ++ rest /\
+  match s_mon s with
+  | MNone => s_value s = cur0 /\ only_verifies (mon_hist rest) /\ recvs rest = []
+  | MRun st pend =>
+      mon_hist rest ++ pend = trace cur0 st0 (recvs rest) /\
+      st = final_st cur0 st0 (recvs rest) /\
+      s_value s = cur_after cur0 (mon_hist rest)
+  | MExited =>
+      (exists tl, mon_hist rest ++ tl = trace cur0 st0 (recvs rest)) /\
+      s_value s = cur_after cur0 (mon_hist rest)
+  end.
+
+Lemma trace_snoc : forall cur st ins i,
+  trace cur st (ins ++ [i]) = trace cur st ins ++ snd (mon_recv stack verify p (final_cur cur st ins) (final_st cur st ins) i).
+Proof. intros. rewrite trace_app, trace_cons. cbn. rewrite app_nil_r. reflexivity. Qed.
+
+Lemma final_st_snoc : forall cur st ins i,
+  final_st cur st (ins ++ [i]) = fst (mon_recv stack verify p (final_cur cur st ins) (final_st cur st ins) i).
+Proof. intros. rewrite final_st_app, final_st_cons. reflexivity. Qed.
+
+(* the receive step, given that the state it starts from satisfies the invariant *)
+Lemma inv_ref_take : forall cur0 st0 log0 (s s1 : sys) st i es,
+  inv_ref cur0 st0 log0 s -> s_mon s = MRun st [] ->
+  s_mon s1 = s_mon s -> s_value s1 = s_value s -> s_log s1 = s_log s ++ es -> mon_hist es = [] -> recvs es = [] ->
+  inv_ref cur0 st0 log0 (mon_take stack verify p s1 st i).
+Proof.
+  intros cur0 st0 log0 s s1 st i es [rest [Hl Hm]] Em M1 V1 L1 He Hr.
+  rewrite Em in Hm. destruct Hm as [Ht [Hst Hv]]. rewrite app_nil_r in Ht.
+  exists (rest ++ es ++ GRecv i :: fst (splitv (snd (mon_recv stack verify p (s_value s1) st i)))).
+  split.
+  - rewrite mon_take_log, L1, Hl, <- !app_assoc. reflexivity.
+  - rewrite mon_take_mon.
+    set (acts := snd (mon_recv stack verify p (s_value s1) st i)).
+    destruct (splitv_spec acts) as [A [B C]].
+    assert (Hrec : recvs (rest ++ es ++ GRecv i :: fst (splitv acts)) = recvs rest ++ [i]).
+    { rewrite !recvs_app, Hr, recvs_cons_recv, B. reflexivity. }
+    assert (Hh : mon_hist (rest ++ es ++ GRecv i :: fst (splitv acts)) = mon_hist rest ++ mon_hist (fst (splitv acts))).
+    { rewrite !mon_hist_app, He, mon_hist_cons_recv. reflexivity. }
+    assert (Hcur : s_value s1 = final_cur cur0 st0 (recvs rest)).
+    { rewrite V1, Hv, Ht, final_cur_is_cur_after. reflexivity. }
+    rewrite Hrec, Hh. repeat split.
+    + rewrite trace_snoc, <- app_assoc, A, Ht. subst acts. rewrite Hcur, Hst. reflexivity.
+    + rewrite final_st_snoc, Hcur, Hst. reflexivity.
+    + destruct (mon_take_fields s1 st i) as [_ [_ [Vt _]]]. rewrite Vt, V1, Hv, cur_after_app, C. reflexivity.
+Qed.
+
+Lemma cur_after_snoc : forall (cur : vcfg) l a,
+  cur_after cur (l ++ [a]) = match a with AStore v => v | _ => cur_after cur l end.
+Proof. intros. rewrite cur_after_app. destruct a; reflexivity. Qed.
+
+Lemma inv_ref_step : forall cur0 st0 log0 s l s',
+  inv_ref cur0 st0 log0 s -> step s l = Some s' -> inv_ref cur0 st0 log0 s'.
+Proof.
+  intros cur0 st0 log0 s l s' I H.
+  destruct (s_mon s) as [|st pend|] eqn:Em.
+  - (* no monitor: it never appears, the value never changes *)
+    destruct I as [rest [Hl Hm]]. rewrite Em in Hm. destruct Hm as [Hv [Hs Hrc]].
+    pose proof (non_monitor_frame s l s' H) as F.
+    assert (Hlog : exists es, s_log s' = s_log s ++ es /\ only_verifies (mon_hist es) /\ recvs es = []).
+    { destruct l; cbn [System.step] in H.
+      - unfold System.api_start in H. destruct (lookup tid (s_thr s)); [discriminate|].
+        destruct op; unfold start_enqueue in H; inv_step H;
+          (eexists; split; [log_ext|]); try (split; [apply only_verifies_nil; reflexivity|reflexivity]).
+        rewrite !mon_hist_app, !recvs_app.
+        destruct (verifs_hist l) as [A B]. rewrite B. split; [|reflexivity].
+        apply only_verifies_app; [intros a []|]. apply only_verifies_app; [exact A|intros a []].
+      - unfold System.api_act in H. inv_step H; (eexists; split; [log_ext|split; [apply only_verifies_nil; reflexivity|reflexivity]]).
+      - unfold System.mon_recv_step in H. rewrite Em in H. discriminate.
+      - unfold System.mon_act_step in H. rewrite Em in H. discriminate.
+      - unfold System.cb_take_step in H. inv_step H; (eexists; split; [log_ext|]);
+          try (split; [apply only_verifies_nil; reflexivity|reflexivity]); apply enter_nostore; reflexivity.
+      - unfold cb_return_step in H. inv_step H. eexists; split; [log_ext|]. apply enter_nostore; reflexivity.
+      - unfold cb_ack_step in H. inv_step H. eexists; split; [log_ext|]. apply enter_nostore; reflexivity.
+      - destruct (s_main s); [discriminate|]. inversion H. eexists. split; [reflexivity|split; [intros a []|reflexivity]].
+      - unfold cancel_call in H. inv_step H; (eexists; split; [log_ext|split; [apply only_verifies_nil; reflexivity|reflexivity]]). }
+    destruct Hlog as [es [Hes [Hse Hre]]]. exists (rest ++ es). rewrite Hes, Hl, app_assoc.
+    split; [reflexivity|].
+    destruct l; try (apply mon_part_eq in F; destruct F as [F1 [_ [_ [F4 _]]]]; rewrite F1, F4, Em;
+                     rewrite mon_hist_app, recvs_app, Hrc, Hre; repeat split; auto using only_verifies_app).
+    + cbn [System.step] in H. unfold System.mon_recv_step in H. rewrite Em in H. discriminate.
+    + cbn [System.step] in H. unfold System.mon_act_step in H. rewrite Em in H. discriminate.
+  - assert (Hne : s_mon s <> MNone) by (rewrite Em; discriminate).
+    pose proof (step_log_nonmon s l s' H Hne) as L.
+    pose proof (non_monitor_frame s l s' H) as F.
+    destruct l;
+      try (destruct L as [es [L1 [L2 L3]]]; apply mon_part_eq in F; destruct F as [F1 [_ [_ [F4 _]]]];
+           destruct I as [rest [Hl Hm]]; exists (rest ++ es);
+           rewrite L1, Hl, app_assoc, F1, F4, mon_hist_app, recvs_app, L2, L3, !app_nil_r;
+           split; [reflexivity|exact Hm]).
+    + (* LMonRecv *)
+      cbn [System.step] in H. unfold System.mon_recv_step in H. rewrite Em in H.
+      destruct pend; [|discriminate H].
+      destruct src.
+      * destruct (s_main s); [|discriminate]. inversion H; subst.
+        eapply (inv_ref_take cur0 st0 log0 s s st InCtxDone []); eauto. rewrite app_nil_r. reflexivity.
+      * destruct (s_ctl s) as [|rid rest]; [discriminate|]. inversion H; subst.
+        eapply (inv_ref_take cur0 st0 log0 s (with_ctl s rest) st (InEnable rid) []); eauto. cbn. rewrite app_nil_r. reflexivity.
+      * destruct (lookup tid (s_thr s)) as [t|]; [|discriminate].
+        destruct (t_pc t); try discriminate. inversion H; subst.
+        destruct m as [src0 v0 []|src0|src0].
+        -- eapply (inv_ref_take cur0 st0 log0 s _ st _ []); eauto. cbn. rewrite app_nil_r. reflexivity.
+        -- eapply (inv_ref_take cur0 st0 log0 s _ st _ [GRet tid RetNil]); eauto.
+        -- eapply (inv_ref_take cur0 st0 log0 s _ st _ [GRet tid RetNil]); eauto.
+        -- eapply (inv_ref_take cur0 st0 log0 s _ st _ [GRet tid RetUnit]); eauto.
+    + (* LMonAct *)
+      cbn [System.step] in H. unfold System.mon_act_step in H. rewrite Em in H.
+      destruct pend as [|a rest_p]; [discriminate H|].
+      destruct I as [rest [Hl Hm]]. rewrite Em in Hm. destruct Hm as [Ht [Hst Hv]].
+      assert (G : forall d, mon_hist (rest ++ [GAct a d]) = mon_hist rest ++ [a]).
+      { intros. rewrite mon_hist_app. reflexivity. }
+      assert (Gr : forall d, recvs (rest ++ [GAct a d]) = recvs rest).
+      { intros. rewrite recvs_app. cbn. apply app_nil_r. }
+      destruct a as [c0 b0|v|v|rid r|ev|rid r|]; inv_step H.
+      * exists (rest ++ [GVerify c0 b0]). cbn. rewrite Hl, app_assoc. split; [reflexivity|].
+        rewrite mon_hist_app, recvs_app. cbn. rewrite app_nil_r, <- app_assoc. cbn.
+        repeat split; auto. rewrite cur_after_snoc. exact Hv.
+      * exists (rest ++ [GAct (AStore v) false]). cbn. rewrite Hl, app_assoc. split; [reflexivity|].
+        rewrite G, Gr, <- app_assoc. cbn. repeat split; auto. rewrite cur_after_snoc. reflexivity.
+      * exists (rest ++ [GAct (ATryUpdates v) true]). cbn. rewrite Hl, app_assoc. split; [reflexivity|].
+        rewrite G, Gr, <- app_assoc. cbn. repeat split; auto. rewrite cur_after_snoc. exact Hv.
+      * exists (rest ++ [GAct (ATryUpdates v) false]). cbn. rewrite Hl, app_assoc. split; [reflexivity|].
+        rewrite G, Gr, <- app_assoc. cbn. repeat split; auto. rewrite cur_after_snoc. exact Hv.
+      * exists (rest ++ [GAct (AReply rid r) false]). cbn. rewrite Hl, app_assoc. split; [reflexivity|].
+        rewrite G, Gr, <- app_assoc. cbn. repeat split; auto. rewrite cur_after_snoc. exact Hv.
+      * exists (rest ++ [GAct (ATrySubmit ev) true]). cbn. rewrite Hl, app_assoc. split; [reflexivity|].
+        rewrite G, Gr, <- app_assoc. cbn. repeat split; auto. rewrite cur_after_snoc. exact Hv.
+      * exists (rest ++ [GAct (ATrySubmit ev) false]). cbn. rewrite Hl, app_assoc. split; [reflexivity|].
+        rewrite G, Gr, <- app_assoc. cbn. repeat split; auto. rewrite cur_after_snoc. exact Hv.
+      * exists (rest ++ [GAct (AEnableReply rid r) false]). cbn. rewrite Hl, app_assoc. split; [reflexivity|].
+        rewrite G, Gr, <- app_assoc. cbn. repeat split; auto. rewrite cur_after_snoc. exact Hv.
+      * exists (rest ++ [GAct AExit false]). cbn. rewrite Hl, app_assoc. split; [reflexivity|].
+        rewrite G, Gr. split; [exists rest_p; rewrite <- app_assoc; exact Ht|]. rewrite cur_after_snoc. exact Hv.
+  - (* exited: nothing of the monitor moves any more *)
+    assert (Hne : s_mon s <> MNone) by (rewrite Em; discriminate).
+    pose proof (step_log_nonmon s l s' H Hne) as L.
+    pose proof (non_monitor_frame s l s' H) as F.
+    destruct l;
+      try (destruct L as [es [L1 [L2 L3]]]; apply mon_part_eq in F; destruct F as [F1 [_ [_ [F4 _]]]];
+           destruct I as [rest [Hl Hm]]; exists (rest ++ es);
+           rewrite L1, Hl, app_assoc, F1, F4, mon_hist_app, recvs_app, L2, L3, !app_nil_r;
+           split; [reflexivity|exact Hm]).
+    + cbn [System.step] in H. unfold System.mon_recv_step in H. rewrite Em in H. discriminate.
+    + cbn [System.step] in H. unfold System.mon_act_step in H. rewrite Em in H. discriminate.
+Qed.
+
+(* ---------- the initial state and the refinement theorem ---------- *)
+
+Lemma init_shape : forall inits watching s0,
+  snd (sys_init stack verify p inits watching) = Ok s0 ->
+  exists c0 st0,
+    cr_out (config_init stack verify p inits watching) = Ok ((0, c0), st0) /\
+    s_value s0 = (0, c0) /\ m_slots st0 = inits /\ m_skip st0 = p_delay p /\
+    s_log s0 = map (fun cb => GVerify (fst cb) (snd cb)) (cr_verify_log (config_init stack verify p inits watching)) /\
+    s_mon s0 = (if existsb (fun b => b) watching then MRun st0 [] else MNone).
+Proof.
+  intros inits watching s0 H. unfold sys_init in H. cbn [snd] in H.
+  destruct (cr_out (config_init stack verify p inits watching)) as [[v st]| |] eqn:E; try discriminate.
+  inversion H; subst. clear H.
+  unfold config_init in E. destruct (stack inits) as [c|]; [|discriminate].
+  destruct (p_skip_initial p || p_delay p); [|destruct (verify c)]; cbn in E; try discriminate;
+    inversion E; subst; exists c; eexists; repeat split; reflexivity.
+Qed.
+
+Lemma init_inv_ref : forall inits watching s0 c0 st0,
+  snd (sys_init stack verify p inits watching) = Ok s0 ->
+  cr_out (config_init stack verify p inits watching) = Ok ((0, c0), st0) ->
+  inv_ref (0, c0) st0 (s_log s0) s0.
+Proof.
+  intros inits watching s0 c0 st0 H E.
+  destruct (init_shape inits watching s0 H) as [c0' [st0' [E' [V [_ [_ [_ M]]]]]]].
+  rewrite E in E'. inversion E'; subst c0' st0'.
+  exists []. rewrite app_nil_r. split; [reflexivity|]. rewrite M.
+  destruct (existsb _ watching); cbn; auto. repeat split; auto. intros a [].
+Qed.
+
+Theorem monitor_refines_l : forall inits watching s0 c0 st0 ls s,
+  snd (sys_init stack verify p inits watching) = Ok s0 ->
+  cr_out (config_init stack verify p inits watching) = Ok ((0, c0), st0) ->
+  run s0 ls = Some s -> inv_ref (0, c0) st0 (s_log s0) s.
+Proof.
+  intros inits watching s0 c0 st0 ls s H E Hr.
+  apply (run_inv (inv_ref (0, c0) st0 (s_log s0)) (inv_ref_step (0, c0) st0 (s_log s0)) ls s0 s); [|exact Hr].
+  eapply init_inv_ref; eauto.
+Qed.
+
+(* ---------- consequences on the ghost history (for all schedules) ---------- *)
+
+Lemma cur_after_stores : forall (l : list mon_act) (cur : vcfg), cur_after cur l = last (stores_of l) cur.
+Proof.
+  induction l as [|a r IH] using rev_ind; intros cur; [reflexivity|].
+  rewrite cur_after_snoc, stores_of_app. destruct a; cbn [stores_of flat_map app]; rewrite ?app_nil_r; auto.
+  rewrite last_last. reflexivity.
+Qed.
+
+Lemma last_in_or : forall {A} (l : list A) d, last l d = d \/ In (last l d) l.
+Proof.
+  induction l as [|x r IH]; intros d; [left; reflexivity|].
+  destruct r as [|y r']; [right; left; reflexivity|].
+  destruct (IH x) as [E|E].
+  - right. change (last (x :: y :: r') d) with (last (y :: r') d).
+    rewrite (last_cons_default r' y d x). rewrite E. left. reflexivity.
+  - right. right. change (last (x :: y :: r') d) with (last (y :: r') d).
+    rewrite (last_cons_default r' y d x). exact E.
+Qed.
+
+(* the stores of the whole history are those made after Config *)
+Lemma hist_split : forall inits watching s0 s rest,
+  snd (sys_init stack verify p inits watching) = Ok s0 -> s_log s = s_log s0 ++ rest ->
+  stores_of (mon_hist (s_log s)) = stores_of (mon_hist rest) /\ recvs (s_log s) = recvs rest.
+Proof.
+  intros inits watching s0 s rest H Hl.
+  destruct (init_shape inits watching s0 H) as [c0 [st0 [_ [_ [_ [_ [L _]]]]]]].
+  rewrite Hl, L, mon_hist_app, recvs_app, stores_of_app.
+  destruct (verifs_hist (cr_verify_log (config_init stack verify p inits watching))) as [A B].
+  rewrite (only_verifies_no_store _ A), B. split; reflexivity.
+Qed.
+
+(* C04, for every schedule: while verification is active (neither Skip nor
+   Delay) every config the monitor ever stored - hence everything View,
+   ViewVersion, Events and the callbacks can hand out - has passed Verify, and so
+   has the current one *)
+Theorem sys_installed_verified_l : forall inits watching s0 ls s,
+  p_skip_initial p = false -> p_delay p = false ->
+  snd (sys_init stack verify p inits watching) = Ok s0 -> run s0 ls = Some s ->
+  Forall (fun v => verify (snd v) = true) (stores_of (mon_hist (s_log s))) /\
+  verify (snd (s_value s)) = true.
+Proof.
+  intros inits watching s0 ls s Hs Hd H0 Hr.
+  destruct (init_shape inits watching s0 H0) as [c0 [st0 [E [V [Sl [Sk _]]]]]].
+  destruct (config_verifies_initial_l stack verify p inits watching (0, c0) st0 Hs Hd E) as [Vc [Vk _]].
+  destruct (monitor_refines_l inits watching s0 c0 st0 ls s H0 E Hr) as [rest [Hl Hm]].
+  destruct (hist_split inits watching s0 s rest H0 Hl) as [St _]. rewrite St.
+  assert (G : forall tl, mon_hist rest ++ tl = trace (0, c0) st0 (recvs rest) ->
+              Forall (fun v => verify (snd v) = true) (stores_of (mon_hist rest))).
+  { intros tl Ht. pose proof (installed_verified_l stack verify p (recvs rest) (0, c0) st0 Vk) as F.
+    unfold MonitorProofs.trace in F. fold (trace (0, c0) st0 (recvs rest)) in F.
+    rewrite <- Ht, stores_of_app in F. apply Forall_app in F. tauto. }
+  assert (G2 : Forall (fun v => verify (snd v) = true) (stores_of (mon_hist rest)) ->
+               s_value s = cur_after (0, c0) (mon_hist rest) -> verify (snd (s_value s)) = true).
+  { intros F Hv. rewrite Hv, cur_after_stores. destruct (last_in_or (stores_of (mon_hist rest)) (0, c0)) as [E1|E1].
+    - rewrite E1. exact Vc.
+    - rewrite Forall_forall in F. apply F. exact E1. }
+  destruct (s_mon s) as [|st pend|].
+  - destruct Hm as [Hv [Hst _]]. rewrite (only_verifies_no_store _ Hst), Hv. split; [constructor|exact Vc].
+  - destruct Hm as [Ht [_ Hv]]. split; [eapply G; eauto|]. apply G2; [eapply G; eauto|exact Hv].
+  - destruct Hm as [[tl Ht] Hv]. split; [eapply G; eauto|]. apply G2; [eapply G; eauto|exact Hv].
+Qed.
+
+(* C05, for every schedule: whenever the monitor is back at its select, the
+   view is the fresh stack of every source's latest value (or the last view
+   that was accepted), and its slots are those latest values *)
+Theorem sys_view_is_fresh_stack_l : forall inits watching s0 ls s st,
+  snd (sys_init stack verify p inits watching) = Ok s0 -> run s0 ls = Some s ->
+  s_mon s = MRun st [] ->
+  snd (s_value s) = spec_view stack verify inits (snd (s_value s0)) (p_delay p) (recvs (s_log s)) /\
+  m_slots st = latest inits (recvs (s_log s)).
+Proof.
+  intros inits watching s0 ls s st H0 Hr Hm.
+  destruct (init_shape inits watching s0 H0) as [c0 [st0 [E [V [Sl [Sk _]]]]]].
+  destruct (monitor_refines_l inits watching s0 c0 st0 ls s H0 E Hr) as [rest [Hl Hi]].
+  destruct (hist_split inits watching s0 s rest H0 Hl) as [_ Rc]. rewrite Rc, V. cbn [snd].
+  rewrite Hm in Hi. destruct Hi as [Ht [Hst Hv]]. rewrite app_nil_r in Ht.
+  rewrite Hv, Ht, <- final_cur_is_cur_after.
+  destruct (view_is_fresh_stack_l stack verify p (recvs rest) (0, c0) st0) as [A _].
+  rewrite Sl, Sk in A. cbn [snd] in A. split; [exact A|].
+  rewrite Hst. rewrite (slots_are_latest_l stack verify p (recvs rest) (0, c0) st0), Sl. reflexivity.
+Qed.
+
+Lemma consecutive_prefix : forall a b k, consecutive_from k (a ++ b) -> consecutive_from k a.
+Proof. induction a as [|x a IH]; cbn; intros; [exact I|]. destruct H. split; eauto. Qed.
+
+Lemma consecutive_bound : forall l k x, consecutive_from k l -> In x l -> k < x /\ x <= k + N.of_nat (length l).
+Proof.
+  induction l as [|y l IH]; intros k x Hc Hin; [destruct Hin|].
+  cbn in Hc. destruct Hc as [Hy Hc]. destruct Hin as [->|Hin].
+  - cbn [length]. lia.
+  - destruct (IH (k + 1) x Hc Hin). cbn [length]. lia.
+Qed.
+
+Lemma consecutive_last : forall (l : list vcfg) k (d : vcfg), fst d = k -> consecutive_from k (map fst l) ->
+  fst (last l d) = k + N.of_nat (length l).
+Proof.
+  induction l as [|x l IH]; intros k d Hd Hc; [cbn; lia|].
+  cbn in Hc. destruct Hc as [Hx Hc].
+  destruct l as [|y l']; [cbn; lia|].
+  change (last (x :: y :: l') d) with (last (y :: l') d). rewrite (last_cons_default l' y d x).
+  rewrite (IH (k + 1) x Hx Hc). cbn [length]. lia.
+Qed.
+
+(* C05, for every schedule: the k-th install has serial k, the published
+   serial is the number of installs so far, and the published pair is the last
+   one stored (config and serial belong together: one atomic pointer) *)
+Theorem sys_serial_counts_installs_l : forall inits watching s0 ls s,
+  snd (sys_init stack verify p inits watching) = Ok s0 -> run s0 ls = Some s ->
+  consecutive_from 0 (map fst (stores_of (mon_hist (s_log s)))) /\
+  fst (s_value s) = N.of_nat (length (stores_of (mon_hist (s_log s)))) /\
+  s_value s = last (stores_of (mon_hist (s_log s))) (s_value s0).
+Proof.
+  intros inits watching s0 ls s H0 Hr.
+  destruct (init_shape inits watching s0 H0) as [c0 [st0 [E [V [Sl [Sk _]]]]]].
+  destruct (monitor_refines_l inits watching s0 c0 st0 ls s H0 E Hr) as [rest [Hl Hm]].
+  destruct (hist_split inits watching s0 s rest H0 Hl) as [St _]. rewrite St, V.
+  assert (G : forall tl, mon_hist rest ++ tl = trace (0, c0) st0 (recvs rest) ->
+              consecutive_from 0 (map fst (stores_of (mon_hist rest)))).
+  { intros tl Ht. destruct (serial_counts_installs_l stack verify p (recvs rest) (0, c0) st0) as [F _].
+    unfold MonitorProofs.trace in F. fold (trace (0, c0) st0 (recvs rest)) in F.
+    rewrite <- Ht, stores_of_app, map_app in F. eapply consecutive_prefix; eauto. }
+  assert (G2 : consecutive_from 0 (map fst (stores_of (mon_hist rest))) ->
+               s_value s = cur_after (0, c0) (mon_hist rest) ->
+               fst (s_value s) = N.of_nat (length (stores_of (mon_hist rest))) /\
+               s_value s = last (stores_of (mon_hist rest)) (0, c0)).
+  { intros F Hv. rewrite Hv, cur_after_stores. split; [|reflexivity].
+    rewrite (consecutive_last _ 0 (0, c0) eq_refl F). lia. }
+  destruct (s_mon s) as [|st pend|].
+  - destruct Hm as [Hv [Hst _]]. rewrite (only_verifies_no_store _ Hst), Hv. cbn. auto.
+  - destruct Hm as [Ht [_ Hv]]. split; [eapply G; eauto|]. apply G2; [eapply G; eauto|exact Hv].
+  - destruct Hm as [[tl Ht] Hv]. split; [eapply G; eauto|]. apply G2; [eapply G; eauto|exact Hv].
+Qed.
+
+(* C09, for every schedule: under DelayInitialVerification Verify is not
+   called - not by Config, not by the monitor - before the first
+   EnableVerification request has reached the monitor *)
+Theorem sys_no_verify_before_enable_l : forall inits watching s0 ls s,
+  p_delay p = true ->
+  snd (sys_init stack verify p inits watching) = Ok s0 -> run s0 ls = Some s ->
+  s_mon s <> MNone ->
+  forallb (fun i => negb (is_enable i)) (recvs (s_log s)) = true ->
+  verifies_of (mon_hist (s_log s)) = [].
+Proof.
+  intros inits watching s0 ls s Hd H0 Hr Hn He.
+  destruct (init_shape inits watching s0 H0) as [c0 [st0 [E [V [Sl [Sk [L _]]]]]]].
+  destruct (config_no_verify_under_delay_l stack verify p inits watching Hd) as [Vl _].
+  rewrite Vl in L. cbn in L.
+  destruct (monitor_refines_l inits watching s0 c0 st0 ls s H0 E Hr) as [rest [Hl Hm]].
+  rewrite L in Hl. cbn in Hl. rewrite Hl in *.
+  assert (Hk : m_skip st0 = true) by (rewrite Sk; exact Hd).
+  destruct (no_verify_before_enable_l stack verify p (recvs rest) (0, c0) st0 Hk He) as [F _].
+  unfold MonitorProofs.trace in F. fold (trace (0, c0) st0 (recvs rest)) in F.
+  assert (G : forall tl, mon_hist rest ++ tl = trace (0, c0) st0 (recvs rest) -> verifies_of (mon_hist rest) = []).
+  { intros tl Ht. rewrite <- Ht, verifies_of_app in F. apply app_eq_nil in F. tauto. }
+  destruct (s_mon s) as [|st pend|]; [contradiction| |].
+  - destruct Hm as [Ht _]. eapply G; eauto.
+  - destruct Hm as [[tl Ht] _]. eapply G; eauto.
+Qed.
+
+(* C07, for every schedule: in the monitor's history every "installed <- nil"
+   comes right after the Store (and the Events try-send) of one config, and at
+   that moment and ever after the published serial is at least that config's *)
+Theorem sys_reply_after_store_l : forall inits watching s0 ls s j rid,
+  snd (sys_init stack verify p inits watching) = Ok s0 -> run s0 ls = Some s ->
+  nth_error (mon_hist (s_log s)) j = Some (AReply rid RNil) ->
+  exists v, (2 <= j)%nat /\ nth_error (mon_hist (s_log s)) (j - 2) = Some (AStore v) /\
+            nth_error (mon_hist (s_log s)) (j - 1) = Some (ATryUpdates v) /\
+            fst v <= fst (s_value s).
+Proof.
+  intros inits watching s0 ls s j rid H0 Hr Hj.
+  destruct (init_shape inits watching s0 H0) as [c0 [st0 [E [V [Sl [Sk [L _]]]]]]].
+  destruct (monitor_refines_l inits watching s0 c0 st0 ls s H0 E Hr) as [rest [Hl Hm]].
+  assert (Ok1 : nil_reply_ok (mon_hist (s_log s0))).
+  { intros j0 rid0 Hx. rewrite L in Hx.
+    destruct (verifs_hist (cr_verify_log (config_init stack verify p inits watching))) as [A _].
+    exfalso. eapply only_verifies_no_reply; eauto. }
+  assert (Ok2 : nil_reply_ok (mon_hist rest)).
+  { destruct (s_mon s) as [|st pend|].
+    - destruct Hm as [_ [Hs _]]. intros j0 rid0 Hx. exfalso. eapply only_verifies_no_reply; eauto.
+    - destruct Hm as [Ht _]. eapply nil_reply_ok_prefix. rewrite Ht. apply reply_after_store_l.
+    - destruct Hm as [[tl Ht] _]. eapply nil_reply_ok_prefix. rewrite Ht. apply reply_after_store_l. }
+  pose proof (nil_reply_ok_app _ _ Ok1 Ok2) as Ok3. rewrite <- mon_hist_app, <- Hl in Ok3.
+  destruct (Ok3 j rid Hj) as [v [H2 [H3 H4]]]. exists v. repeat split; auto.
+  destruct (sys_serial_counts_installs_l inits watching s0 ls s H0 Hr) as [C1 [C2 _]].
+  assert (Hin : In (fst v) (map fst (stores_of (mon_hist (s_log s))))).
+  { apply in_map. apply in_flat_map. exists (AStore v). split; [eapply nth_error_In; eauto|left; reflexivity]. }
+  destruct (consecutive_bound _ 0 (fst v) C1 Hin) as [_ Hb]. rewrite map_length, N.add_0_l in Hb.
+  rewrite C2. exact Hb.
+Qed.
+
 End Proofs.
